@@ -175,6 +175,8 @@ type Obligation struct {
 	Inputs []InputVar
 	Batch  []*Obligation // for batched obligations: the members
 	Split  *SplitSpec
+	Splits []*SplitSpec
+	Reveal map[string]bool
 	// results
 	Status  string // discharged, failed(sat), unknown, error
 	Solver  string
